@@ -51,17 +51,14 @@ def stepLineBoth (w : Bool) (C : Codec UInt64) (s : St UInt64) (toks : List Stri
       (r.st, if a == b then a else a ++ " [translated-code: " ++ b ++ "]")
     | none => (s, "bad-op")
 
-/-- `ts` lines of the point methods (and of `DeletePrefix` / `Clear`) are answered by the hand-written model **and** by the
+/-- `ts` lines of `Get/Has/Set/Delete/Iterate` (and of `DeletePrefix` / `Clear`) are answered by the hand-written model **and** by the
 regenerated method bodies (`Hive/Gen/C06_StoreCode.lean`) run under `SCode.sexec`; by `C06_store_code_refines_model` the two
 agree, and the real code is compared with both. -/
 def sstepLineBoth (w : Bool) (KC : Codec UInt16) (VC : Codec UInt64) (m : Store) (toks : List String) : Store × String :=
   let (m', a) := sstepLineK KC VC m toks
   let differ := fun (b : String) => (m', if a == b then a else a ++ " [translated-code: " ++ b ++ "]")
   match parseSOp toks with
-  | some (op, F) =>
-    match SCode.sexecOp w Hive.Gen.C06StoreCode.sprog KC VC m op F with
-    | some g => differ (showSRes g)
-    | none => (m', a)
+  | some (op, F) => differ (showSRes (SCode.sexecOp w Hive.Gen.C06StoreCode.sprog KC VC m op F))
   | none =>
     let pass := fun (body : SCode.SStmt) (p : Bytes) (F : SFaults) (letter : String) =>
       match SCode.sexecPass w KC VC body m p F with
